@@ -18,12 +18,76 @@ ASSUMPTIONS = ["user-supplied functions and computegraph internals are assumed t
 
 def payloads(tier, seed):
     n = 30 if tier == "quick" else 500
-    return [{"seed": seed, "index": i} for i in range(n)]
+    return [{"seed": seed, "index": i} for i in range(n)] + [{"seed": seed, "index": i, "mode": "library"} for i in range(6 if tier == "quick" else 60)]
 
 def search_payloads(tier, seed, diffs):
     return [{"seed": seed + 4243, "index": i} for i in range(150)]
 
+def library_task(W, payload):
+    """the time-function library used as flow rates with run-time parameters: `windowed_constant`, the sigmoidal / linear interpolators and
+    `get_piecewise_function` with parameter-valued points, traced once (abstract parameters) and compiled once, then evaluated at other values"""
+    import jax, jax.numpy as jnp
+    from summer2 import CompartmentalModel
+    from summer2.parameters import Parameter, Function, Time
+    from summer2.functions import time as stf
+    from summer2.functions.util import windowed_constant
+    r = random.Random(f"C19l:{payload['seed']}:{payload['index']}")
+    out = mk_out()
+    which = ["windowed_constant", "sigmoidal", "linear", "piecewise"][payload["index"] % 4]
+    bump(out, "library:" + which)
+    m = CompartmentalModel((0, 8), ["S", "I"], ["I"], timestep=r.choice([1.0, 0.5]))
+    m.set_initial_population({"S": 900.0, "I": 100.0})
+    if which == "windowed_constant":
+        rate = Function(windowed_constant, [Time, Parameter("a"), Parameter("b"), Parameter("c")])
+    elif which == "sigmoidal":
+        rate = stf.get_sigmoidal_interpolation_function([Parameter("b"), 4.0, 7.0], [Parameter("a"), 0.25, Parameter("c")])
+    elif which == "linear":
+        rate = stf.get_linear_interpolation_function([Parameter("b"), 4.0, 7.0], [Parameter("a"), 0.25, Parameter("c")])
+    else:
+        rate = stf.get_piecewise_function([Parameter("b"), 5.0], [Parameter("a"), 0.25, Parameter("c")])
+    m.add_importation_flow("imp", rate, "I", split_imports=False)
+    m.add_transition_flow("si", Parameter("a"), "S", "I")
+    params = {"a": r.choice([0.125, 0.5]), "b": r.choice([1.0, 2.5]), "c": r.choice([0.375, 3.0])}
+    def classify(e):
+        chain = []; x = e
+        while x is not None and len(chain) < 6:
+            chain.append(type(x).__name__); x = x.__cause__ or x.__context__
+        name = "/".join(chain)
+        return name, any(k in (name + " " + str(e)[:2000]) for k in ("Concretization", "TracerBool", "TracerInteger", "TracerArrayConversion", "NonConcreteBooleanIndex"))
+    for solver in ("euler", "rk4", "odeint"):
+        try:
+            runner = m.get_runner(params, jit=False, solver=solver)
+            abstract = {k: jax.ShapeDtypeStruct((), jnp.float64) for k in params}
+            jax.make_jaxpr(lambda p: runner._run_func(parameters=p))(abstract)
+            out["evals"] += 1
+            out["cases"].append(f"library:{which}:{solver}")
+        except BaseException as e:
+            name, tracer = classify(e)
+            if tracer:
+                fail(out, f"a model whose rate is the library function {which} needs the concrete value of a run-time quantity ({name}) with solver {solver}", "c19", payload,
+                     error=str(e)[:600], solver=solver, function=which, params=params)
+            else:
+                bump(out, "trace_other_error:" + name)
+    try:
+        jr = m.get_runner(params, jit=True, solver="euler"); pr = m.get_runner(params, jit=False, solver="euler")
+        for k in range(2):
+            p2 = {a: b * r.choice([0.5, 1.5, 0.75]) for a, b in params.items()}
+            oa = np.asarray(jr._run_func(parameters=p2)["outputs"]); ob = np.asarray(pr._run_func(parameters=p2)["outputs"])
+            out["evals"] += 1
+            if np.all(np.isfinite(ob)) and not mat_close(oa.tolist(), ob.tolist(), 1e-9):
+                fail(out, f"a compiled runner using {which} gives different results from an uncompiled evaluation at other parameter values", "c19", payload, params=p2, function=which)
+    except BaseException as e:
+        name, tracer = classify(e)
+        if tracer:
+            fail(out, f"jit-compiling a runner that uses the library function {which} fails ({name})", "c19", payload, error=str(e)[:600], function=which, params=params)
+        else:
+            bump(out, "jit_other_error:" + name)
+    return out
+
+
 def task(W, payload):
+    if payload.get("mode") == "library":
+        return library_task(W, payload)
     import jax, jax.numpy as jnp
     r = random.Random(f"C19:{payload['seed']}:{payload['index']}")
     # every third program supplies the whole initial population as an array graph object of parameters (init_population_with_graphobject)
